@@ -1,0 +1,19 @@
+//go:build verif
+
+package mapper
+
+import "go/types"
+
+// Exported wrappers of unexported helpers, for the verification probe only.
+
+func VerifSmartMatch(a, b string) bool { return smartMatch(a, b) }
+
+func VerifMatchType(t1, t2 types.Type) (bool, bool) { return matchType(t1, t2) }
+
+func VerifMayMisConv(t1, t2 types.Type) bool { return mayMisConv(t1, t2) }
+
+func VerifIsWriteMethod(name, pkgName string) bool { return isWriteMethod(name, pkgName) }
+
+func VerifIsReadMethod(name, pkgName string) bool { return isReadMethod(name, pkgName) }
+
+func VerifGetMapTag(tag string) string { return getMapTag(tag) }
